@@ -230,7 +230,7 @@ C['C14/explicit-scale-and-keys'] = {
 # ---------------------------------------------------------------- C20
 KN20 = {'policy': 'random', 'lat': 0, 'cost': 0.0, 'stall_pm': 0,
         'epoch': 'exact', 'time_yield': False, 'max_steps': 400000,
-        'line_mean': 20}
+        'line_manual': True, 'line_mean': 20}
 C['C20/two-builders-one-fails-mid-graph'] = {
     'mode': 'rt', 'knobs': KN20, 'post': ['sum', 'wrap'], 'warm': True,
     'threads': [[['build', 'many', None, 0], ['build', 'fft', None, 0]],
